@@ -214,10 +214,12 @@ Section Dir.
       else if Lfn.ev_is_dir ev && child_nonempty then (Err EDirectoryIsNotEmpty, ss)
       else (Ok tt, delete_entry ss ev)).
 
-  (* rename_internal with dst_dir = self.  ORDER of the code: find the source, check the destination, delete the
-     source slots, then write the new entry (which may fail: D20). *)
+  (* rename_internal with dst_dir = self.  ORDER of the code: find the source ("." and ".." directory entries are
+     refused: InvalidInput), check the destination, delete the source slots, then write the new entry (which may fail:
+     D20). *)
   Definition rename_in_dir (k : dkind) (free : nat) (ss : slots) (src dst : str) : dres unit :=
     lift (find_entry ss src None) ss (fun e =>
+      if is_special e then (Err EInvalidInput, ss) else
       lift (check_for_existence ss dst None) ss (fun r =>
         match r with
         | Exists dst_e =>
@@ -233,6 +235,7 @@ Section Dir.
   Definition rename_across (kd : dkind) (freed : nat) (src_ss dst_ss : slots) (src dst : str) : res unit * (slots * slots) :=
     match find_entry src_ss src None with
     | Ok e =>
+      if is_special e then (Err EInvalidInput, (src_ss, dst_ss)) else
       match check_for_existence dst_ss dst None with
       | Ok (Exists _) => (Err EAlreadyExists, (src_ss, dst_ss))      (* entries of different directories are never the same *)
       | Ok (Fresh a) =>
